@@ -338,7 +338,8 @@ def _s(s):
     loc = s.P("loc", [0.0], "real")
     scale = s.P("scale", [1.0], "pos")
     d = s.M("module", Distribution("module", torch.distributions.Normal, x, OrderedDict(loc=loc, scale=scale)))
-    mp = s.D("mp", ModuleParameter("mp", d), "real")
+    mp = ModuleParameter("mp", d)
+    s.D("mp", mp, None if _setter_is_deliberate_raise(ModuleParameter, "tensor") else "real")
     s.out, s.out_name = mp, "mp"
 
 
@@ -530,7 +531,7 @@ def _s(s):
     from torchtree.evolution.poisson_tree_likelihood import PoissonTreeLikelihood
     tm = _time_tree(s, "ratios")
     clock = s.M("clock", StrictClockModel("clock", s.P("clock.rate", [5.0], "pos"), tm))
-    el = s.P("edge_lengths", [1.0, 2.0, 3.0, 1.0, 2.0, 1.0], "fixed")
+    el = s.P("edge_lengths", [1.0, 2.0, 3.0, 1.0, 2.0, 1.0], "pos")
     m = s.M("like", PoissonTreeLikelihood("like", tm, clock, el), out=True)
     s.E("like.__call__", lambda: m())
 
@@ -673,13 +674,13 @@ def _joint(s):
     t = s.D("z.exp", TransformedParameter("z.exp", z, torch.distributions.ExpTransform()), "pos")
     tl = s.D("zb.affine", TransformedParameter("zb.affine", [z, b], torch.distributions.AffineTransform(0.5, 2.0)), "real")
     hyper = s.P("hyper.scale", [1.0], "pos")
-    d1 = s.M("prior.a", Distribution("prior.a", LN, a, OrderedDict(loc=s.P("prior.a.loc", [0.0], "real"), scale=hyper)))
+    d1 = s.M("prior.a", Distribution("prior.a", LN, a, OrderedDict(loc=s.P("prior.a.loc", [0.0, 0.1, 0.2, 0.3], "real"), scale=hyper)))
     d2 = s.M("prior.view", Distribution("prior.view", G, v, OrderedDict(concentration=s.P("prior.view.shape", [2.0], "pos"), rate=s.P("prior.view.rate", [1.0], "pos"))))
     d3 = s.M("prior.view_idx", Distribution("prior.view_idx", LN, vi, OrderedDict(loc=s.P("prior.vi.loc", [0.1], "real"), scale=hyper)))
     d4 = s.M("prior.cat", Distribution("prior.cat", G, c, OrderedDict(concentration=s.P("prior.cat.shape", [1.5], "pos"), rate=s.P("prior.cat.rate", [0.5], "pos"))))
     d5 = s.M("prior.exp", Distribution("prior.exp", G, t, OrderedDict(concentration=s.P("prior.exp.shape", [2.5], "pos"), rate=s.P("prior.exp.rate", [2.0], "pos"))))
     d6 = s.M("prior.affine", Distribution("prior.affine", N, tl, OrderedDict(loc=s.P("prior.affine.loc", [0.0], "real"), scale=s.P("prior.affine.scale", [3.0], "pos"))))
-    d7 = s.M("prior.z", Distribution("prior.z", N, z, OrderedDict(loc=s.P("prior.z.loc", [0.0], "real"), scale=hyper)))
+    d7 = s.M("prior.z", Distribution("prior.z", N, z, OrderedDict(loc=s.P("prior.z.loc", [0.0, 0.1], "real"), scale=hyper)))
     inner = s.M("joint.inner", JointDistributionModel("joint.inner", [d5, d6, t]))
     j = s.M("joint", JointDistributionModel("joint", [d1, d2, d3, d4, d7, inner]))
     for n in ("prior.a", "prior.view", "prior.view_idx", "prior.cat", "prior.exp", "prior.affine", "prior.z", "joint.inner", "joint"):
@@ -1072,7 +1073,13 @@ def apply_op(s, op, step=0):
             ps = [s.params[n] for n in op["targets"]]
             for p in ps:
                 p.requires_grad = True
-            loss = s.evals[op["loss"]]()
+            try:
+                loss = s.evals[op["loss"]]()
+            except Exception:
+                # the evaluation itself is broken (outside C11; eval operations compare it with a fresh copy): no step
+                for p in ps:
+                    p.requires_grad = False
+                return []
             loss = loss.sum() if isinstance(loss, torch.Tensor) else sum(x.sum() for x in loss)
             opt = torch.optim.SGD([p.tensor for p in ps], lr=1.0)
             opt.zero_grad()
@@ -1893,18 +1900,23 @@ def check_getter(cls_qual, name, flag, scn_names):
                 continue
             raise Refuted("%s.%s raises %s: %s although a fresh copy evaluates" % (cls.__name__, name, type(e).__name__, e), witness={"graph": sn}, confirmed=False)
         lost = [e for e in rec.since(mark) if e[0] == "handle" and e[1] == s.out_name]
-        if out.__dict__[flag] is not False:
-            raise Refuted("%s.%s leaves %s = %r after recomputing" % (cls.__name__, name, flag, out.__dict__[flag]), witness={"graph": sn, "shape": shape}, confirmed=False)
-        if lost:
+        if not lost and out.__dict__[flag] is not False:
+            raise Refuted("%s.%s leaves %s = %r after recomputing although nothing changed meanwhile" % (cls.__name__, name, flag, out.__dict__[flag]),
+                          witness={"graph": sn, "shape": shape}, confirmed=False)
+        if lost and out.__dict__[flag] is False:
             # a notification arrived while the value was being computed and `flag = False` afterwards discards it
-            ops = [{"op": "eval", "what": [l for l in s.evals if l.startswith(s.out_name + ".")][:1] or "*", "seed": 1},
-                   {"op": "eval", "what": [l for l in s.evals if l.startswith(s.out_name + ".")][:1] or "*", "seed": 2}]
+            labs = [l for l in s.evals if l.startswith(s.out_name + ".")][:1] or "*"
+            ops = [{"op": "eval", "what": labs, "seed": 1}, {"op": "eval", "what": labs, "seed": 2}]
             found, _ = run_history(sn, ops)
             _refute("%s.%s: %d change notification(s) (from %s) reach the object while %s is computing (the computation itself draws / assigns "
                     "parameters) and the unconditional `%s = False` after the computation discards them: the next call returns the cached "
                     "value although the parameters it was computed from have been replaced; a freshly built copy with the same parameter "
                     "values (same RNG seed) returns a different value" % (cls.__name__, name, len(lost), sorted({str(e[3]) for e in lost}), name, flag),
                     sn, ops, found, {"shape": shape, "notifications_during_compute": [list(map(str, e)) for e in lost[:4]]})
+        if lost:
+            info["verdict"] = "%d notification(s) arrive during the computation and the object stays dirty: the next call recomputes" % len(lost)
+            info["notifications_during_compute"] = len(lost)
+            continue
         fv = fresh_value()
         if not heap.same_value(v1, fv, ATOL, ATOL):
             ops, found = find_witness(sn, kinds=("stale",))
@@ -1934,8 +1946,10 @@ def check_getter(cls_qual, name, flag, scn_names):
                 fv = fresh_value()
                 n_upd += 1
                 if not heap.same_value(v3, fv, ATOL, ATOL):
-                    raise Refuted("%s.%s with all dirty flags raised does not recompute from the current value of %s: %s vs fresh %s"
-                                  % (cls.__name__, name, pn, _fmt(v3), _fmt(fv)), witness={"graph": sn, "parameter": pn, "shape": shape}, confirmed=True)
+                    ops, found = find_witness(sn, prefer=[pn], kinds=("stale",))
+                    _refute("%s.%s with every dirty flag raised does not recompute from the current value of %s (it reads a value cached "
+                            "elsewhere that no flag guards): %s vs fresh copy %s" % (cls.__name__, name, pn, _fmt(v3), _fmt(fv)), sn, ops, found,
+                            {"parameter": pn, "shape": shape})
         info["updates_checked"] = n_upd
         info["verdict"] = "dirty -> recomputed from current dependencies (= fresh copy), flag cleared, second call cached, no notification during compute"
     res["statement"] = "%s.%s: if %s: recompute from current dependencies; %s := False; return cache — and no notification is lost" % (cls_qual, name, flag, flag)
@@ -2100,19 +2114,25 @@ def _optimizer_run(args):
     ws = _watch_all(s)
     problems = []
     events = []
-    real_call = loss._call
+    real_cls = type(loss)
 
-    def checked_call(*a, **k):
+    def checked_call(self, *a, **k):
         events.append("eval")
+        v = real_cls.__call__(self, *a, **k)
         bad = [n for n, w in ws.items() if not w.consistent()]
         if bad:
             problems.append("loss evaluated while the listeners of %s hold a stale value (no notification since the in-place step)" % bad)
-        return real_call(*a, **k)
-    object.__setattr__(loss, "_call", checked_call)
+        fresh = build(s.name, s.state())
+        fv = fresh.models["joint"]()
+        if not heap.same_value(v.detach(), fv.detach(), 1e-9, 1e-9):
+            problems.append("loss() returned %s but a freshly built copy holding the same parameter values returns %s (evaluation #%d, after %d steps)"
+                            % (_fmt(v), _fmt(fv), events.count("eval"), events.count("step")))
+        return v
+    loss.__class__ = type("Checked_" + real_cls.__name__, (real_cls,), {"__call__": checked_call})
     for p in ps:
         p.requires_grad = True
     if args.get("algorithm") == "LBFGS":
-        topt = torch.optim.LBFGS([p.tensor for p in ps], lr=0.1, max_iter=2)
+        topt = torch.optim.LBFGS([p.tensor for p in ps], lr=0.1, max_iter=args.get("max_iter", 20))
     else:
         topt = torch.optim.SGD([p.tensor for p in ps], lr=0.01)
     real_step = topt.step
@@ -2126,7 +2146,7 @@ def _optimizer_run(args):
     import io
     with contextlib.redirect_stdout(io.StringIO()):
         opt.run()
-    object.__delattr__(loss, "_call")
+    loss.__class__ = real_cls
     bad = [n for n, w in ws.items() if not w.consistent()]
     if bad:
         problems.append("after Optimizer.run returned the listeners of %s hold a stale value: the last in-place step was not followed by a notification" % bad)
@@ -2255,22 +2275,22 @@ def _s(s):
     s.E("coalescent.__call__", lambda: coal())
 
 
-@scenario("twin.unregistered_read", "twin.BadHKY")
+@scenario("twin.unregistered_read", "twin.BadCoalescent")
 def _s(s):
-    from torchtree.evolution.substitution_model.nucleotide import HKY
+    from torchtree.evolution.coalescent import ConstantCoalescentModel
 
-    class BadHKY(HKY):
+    class BadCoalescent(ConstantCoalescentModel):
         __module__ = "torchtree._vt_twin"
 
-        def __init__(self, id_, kappa, frequencies, extra):
-            super().__init__(id_, kappa, frequencies)
+        def __init__(self, id_, theta, tree_model, extra):
+            super().__init__(id_, theta, tree_model)
             self.extra = [extra]     # kept in a list: Parametric.__setattr__ does not register it
 
-        def q(self):
-            return super().q() * self.extra[0].tensor
-    m = s.M("subst", BadHKY("subst", s.P("subst.kappa", [2.0], "pos"), s.P("subst.freqs", [0.2, 0.3, 0.25, 0.25], "simplex"),
-                            s.P("subst.extra", [1.5], "pos")), out=True)
-    _subst_evals(s, m, "subst")
+        def _call(self, *args, **kwargs):
+            return super()._call(*args, **kwargs) * self.extra[0].tensor
+    tm = _time_tree(s, "heights")
+    m = s.M("coalescent", BadCoalescent("coalescent", s.P("theta", [3.0], "pos"), tm, s.P("extra", [1.5], "pos")), out=True)
+    s.E("coalescent.__call__", lambda: m())
 
 
 @scenario("twin.getter_no_recompute", "twin.BadGetterSiteModel")
@@ -2304,6 +2324,12 @@ def _s(s):
         def _call(self, *args, **kwargs):
             self.x.tensor = torch.randn(self.x.tensor.shape)   # draws inside the computation, like the variational objectives
             return self.x.tensor.sum()
+
+        def __call__(self, *args, **kwargs):
+            if self.lp_needs_update:
+                self.lp = self._call(*args, **kwargs)
+                self.lp_needs_update = False      # discards the notification caused by the draw
+            return self.lp
 
         def _sample_shape(self):
             return torch.Size([])
@@ -2358,8 +2384,8 @@ def vacuity_handlers():
 
 
 def vacuity_readset():
-    d1 = _expect_refuted(lambda: check_readset("twin.BadHKY", ["twin.unregistered_read"]), "model reading a parameter kept in a plain list (c)")
-    check_readset("torchtree.evolution.substitution_model.nucleotide.HKY", ["subst.hky"])
+    d1 = _expect_refuted(lambda: check_readset("twin.BadCoalescent", ["twin.unregistered_read"]), "model reading a parameter kept in a plain list (c)")
+    check_readset("torchtree.evolution.coalescent.ConstantCoalescentModel", ["coalescent.constant"])
     return {"backend": "twins", "refuted": [d1], "statement": "(c) refutes a model that reads a parameter it did not register; the real parent passes"}
 
 
@@ -2635,7 +2661,7 @@ def obligations(tier, seed):
             (lambda m=m: check_mutation("HMCOperator.%s" % m, {"graph": "graph.joint_parameter_kinds", "mutation": "operator." + m, "operator": "HMCOperator", "targets": ["z", "b"], "joint": "joint", "seed": 9})), A)
     add("C11.a.notify[GMRFPiecewiseCoalescentBlockUpdatingOperator._step]", _ob_gmrf_operator, A)
     add("C11.a.notify[Optimizer._run]", lambda: check_optimizer({"algorithm": "SGD", "iterations": 3}), A)
-    add("C11.a.notify[Optimizer._run_closure]", lambda: check_optimizer({"algorithm": "LBFGS", "iterations": 2}), A)
+    add("C11.a.notify[Optimizer._run_closure]", lambda: [check_optimizer({"algorithm": "LBFGS", "iterations": 2, "max_iter": mi}) for mi in (1, 5, 20)][-1], A)
 
     # ---- dyn ----------------------------------------------------------------------------------------
     nh, ln = (6, 40) if quick else (40, 80)
